@@ -1234,6 +1234,11 @@ func (ctx *RenderContext) getItem(container, index interface{}) (interface{}, er
 		// Use reflection for other types
 		v := reflect.ValueOf(container)
 
+		// A pointer to a map or list is indexed like what it points to
+		if v.Kind() == reflect.Ptr && !v.IsNil() {
+			v = v.Elem()
+		}
+
 		switch v.Kind() {
 		case reflect.Slice, reflect.Array:
 			// Check bounds
@@ -1255,7 +1260,11 @@ func (ctx *RenderContext) getItem(container, index interface{}) (interface{}, er
 			keyType := v.Type().Key()
 			indexValue := reflect.ValueOf(index)
 
-			if indexValue.Type().ConvertibleTo(keyType) {
+			if keyType.Kind() == reflect.String && indexValue.Kind() != reflect.String {
+				// m[1] on a string-keyed map means the key "1" (a Go conversion would
+				// turn the number into the character with that code)
+				mapKey = reflect.ValueOf(ctx.ToString(index)).Convert(keyType)
+			} else if indexValue.Type().ConvertibleTo(keyType) {
 				mapKey = indexValue.Convert(keyType)
 			} else {
 				// Try string conversion for the key
@@ -1312,9 +1321,11 @@ func (ctx *RenderContext) getAttribute(obj interface{}, attr string) (interface{
 	// Maps with string keys (map[string]string, map[string]int, named map types,
 	// pointers to maps) answer attribute access like map[string]interface{} does
 	if objValue.Kind() == reflect.Map {
-		if objValue.Type().Key().Kind() != reflect.String {
+		keyKind := objValue.Type().Key().Kind()
+		if keyKind != reflect.String && keyKind != reflect.Interface {
 			return nil, nil
 		}
+		// (a map keyed by interface{} holds the attribute under the plain string)
 		value := objValue.MapIndex(reflect.ValueOf(attr).Convert(objValue.Type().Key()))
 		if value.IsValid() && value.CanInterface() {
 			return value.Interface(), nil
